@@ -6,6 +6,7 @@ import (
 	"fmt"
 	"go/token"
 	"go/types"
+	"strings"
 
 	"golang.org/x/tools/go/ssa"
 )
@@ -16,8 +17,9 @@ func checkC12(c *Ctx) {
 	ruleFirstWins(c)
 	ruleRefClosure(c)
 	ruleNormProv(c)
+	ruleNormWS(c)
 	ruleSameMachine(c)
-	c.Rule("TRAV", "Explicit-stack traversals whose visiting order is observable pop from the end and push children by descending index (or pop from the front and push ascending): containers are visited in document order, so 'first definition' means first in source.")
+	c.Rule("TRAV", "Explicit-stack traversals whose visiting order is observable pop from the end and push children by descending index (a stack; a queue would visit breadth-first): containers are visited in document order, so 'first definition' means first in source.")
 	if fn := c.P.Method("ReferenceMap", "Extract"); c.NeedFunc("TRAV", fn, "(ReferenceMap).Extract") {
 		ok, why := travOrder(fn)
 		c.Check(ok, "TRAV", "(ReferenceMap).Extract", fn.Pos(), why)
@@ -453,8 +455,8 @@ func travOrder(fn *ssa.Function) (bool, string) {
 	switch {
 	case popEnd && desc && !asc && !popFront:
 		return true, "pop from the end, children pushed by descending index"
-	case popFront && asc && !desc && !popEnd:
-		return true, "pop from the front, children pushed by ascending index"
+	case popFront:
+		return false, "frames are taken from the front of the slice: a queue visits level by level, not in document order, so a shallower later node is seen before a deeper earlier one"
 	}
 	return false, fmt.Sprintf("traversal order idiom not document order (popEnd=%v popFront=%v descending=%v ascending=%v)", popEnd, popFront, desc, asc)
 }
@@ -475,4 +477,71 @@ func init() {
 		Control{Name: "neg-Extract-exists-test-split", Props: []string{"C12"}, File: "references.go", Negative: true,
 			Old: "\t\t\tif _, exists := m[label]; label == \"\" || exists {\n\t\t\t\tcontinue\n\t\t\t}", New: "\t\t\tif label == \"\" {\n\t\t\t\tcontinue\n\t\t\t}\n\t\t\tif _, exists := m[label]; exists {\n\t\t\t\tcontinue\n\t\t\t}"},
 	)
+}
+
+// unicodeWSFuncs: external functions that classify or strip *Unicode* white space (a strict superset of the spec's
+// space, tab, line feed, carriage return).
+var unicodeWSFuncs = map[string]bool{
+	"strings.TrimSpace": true, "strings.Fields": true, "bytes.TrimSpace": true, "bytes.Fields": true,
+	"unicode.IsSpace": true, "strings.FieldsFunc": true, "bytes.FieldsFunc": true,
+}
+
+// ruleNormWS: the label normaliser treats exactly space, tab, LF and CR as white space.
+func ruleNormWS(c *Ctx) {
+	c.Rule("NORM-WS", "Inside the label normaliser (transformLinkReferenceSpan and what it calls in the module) white space is exactly space, tab, line feed and carriage return: every module predicate it uses that accepts any of them accepts exactly these four (BSET), constant cut-sets contain only them, and no Unicode-white-space function (strings.TrimSpace, strings.Fields, unicode.IsSpace, …) is applied to label text.")
+	p := c.P
+	fn := p.Func("transformLinkReferenceSpan")
+	if !c.NeedFunc("NORM-WS", fn, "transformLinkReferenceSpan") {
+		return
+	}
+	bs := newBSET(p)
+	n := 0
+	eachInstr(fn, func(in ssa.Instruction) {
+		call, ok := in.(*ssa.Call)
+		if !ok {
+			return
+		}
+		f := call.Call.StaticCallee()
+		if f == nil {
+			return
+		}
+		name := f.String()
+		key := fmt.Sprintf("transformLinkReferenceSpan→%s#%d", strings.TrimPrefix(name, cmPath+"."), n+1)
+		switch {
+		case unicodeWSFuncs[name]:
+			n++
+			c.Viol("NORM-WS", key, in.Pos(), name+" treats every Unicode white-space character (NBSP, NEL, EM SPACE, form feed, …) as label white space; the spec's label matching knows only space, tab and line endings")
+		case name == "strings.Trim" || name == "strings.TrimLeft" || name == "strings.TrimRight" || name == "bytes.Trim":
+			n++
+			set, ok := constString(call.Call.Args[1])
+			good := ok && strings.Trim(set, " \t\r\n") == ""
+			c.Check(good, "NORM-WS", key, in.Pos(), fmt.Sprintf("cut-set %q must contain only space, tab, LF, CR", set))
+		case p.InModule(f) && len(call.Call.Args) == 1:
+			t := bs.Table(f)
+			if t.why != "" || len(t.domain) != 256 {
+				return
+			}
+			var acc []int64
+			for i, d := range t.domain {
+				if t.res[i].kind == oRet && t.res[i].val != 0 {
+					acc = append(acc, d)
+				}
+			}
+			isWS := false
+			for _, d := range acc {
+				if d == ' ' || d == '\t' || d == '\n' || d == '\r' {
+					isWS = true
+				}
+			}
+			if !isWS {
+				return
+			}
+			n++
+			good := len(acc) == 4
+			c.Check(good, "NORM-WS", key, in.Pos(), "white-space predicate accepts "+describeSet(acc, true)+"; must be exactly space, tab, LF, CR")
+		}
+	})
+	if n < 2 {
+		c.Undecided("NORM-WS", "instance-count", token.NoPos, fmt.Sprintf("%d white-space classifications found in the normaliser, at least 2 expected", n))
+	}
 }
